@@ -6,13 +6,19 @@
       ra2 <line> <start>             read_table_line_AUTOUGH2
       kfl <line> <k0,k1,..>          key_from_line
       tok <line> <I>                 row_tokens (the specification; tied to the Python oracle tokenizer)
+      demo -                         the lines of the demonstration listing of Witness2.v (hex, comma separated), so that the
+                                     real reader can be run on the very text the Coq examples are about
+      fchk <sim> <tags> <line> <line> ...
+                                     the listing abstracted into result sets / tables (one role tag per line, assigned by
+                                     an independent scan): is it a rendered listing to which the whole-file theorem applies?
+                                     (file_from sets = the lines, and CheckT2.file_check = Some _)
       file <sim> <skip,skip> <i,i,..> <line> <line> ...
                                      open_listing (file-level reader, Reader.v) followed by set_index for each i:
                                      table structures, and at each index the index/time/step and every cell *)
 From Coq Require Import Ascii String List Bool ZArith NArith.
 From PTBase Require Import Exn PyStr PyNum PyVal Wire.
 From PTModel Require Import Fortran.
-From P Require Import Model Table Reader.
+From P Require Import Model Table Reader TableT2 SetT2 FileT2 CodecT2 CheckT2 Witness2.
 Import ListNotations.
 Open Scope char_scope.
 
@@ -91,13 +97,167 @@ Definition run_file (sm skips idx : str) (lines : list str) : str :=
                ++ concat (map show_table (s_tables st)) ++ show_at 0 (Ok st) ++ visit st (zlist idx))
   end.
 
+(** *** abstraction of a tagged listing into result sets (unverified parser: its output is checked by
+    [file_from sets = lines] and by the verified [file_check])
+    tags: l lead, t time line, h header-block line, s set separator, b blank after it, y short line + blanks,
+          E/C/P/G header line of the element/connection/primary/generation table, f fill, r row, g gap line,
+          e blank before the table separator, z table separator, i line between tables, x tail *)
+Definition tl_t := (ascii * str)%type.
+Fixpoint span_tag (c : ascii) (l : list tl_t) : list str * list tl_t :=
+  match l with
+  | (d, x) :: r => if ceqb c d then let (a, b) := span_tag c r in (x :: a, b) else ([], l)
+  | [] => ([], [])
+  end.
+Definition table_name (c : ascii) : option str :=
+  if ceqb c "E" then Some (s2l "element") else if ceqb c "C" then Some (s2l "connection")
+  else if ceqb c "P" then Some (s2l "primary") else if ceqb c "G" then Some (s2l "generation") else None.
+Fixpoint parse_more (fuel : nat) (l : list tl_t) : list (list str * str) * list tl_t :=
+  match fuel with
+  | O => ([], l)
+  | S f => let (g, l1) := span_tag "g" l in
+           match l1 with
+           | ("r", x) :: l2 => let (m, l3) := parse_more f l2 in ((g, x) :: m, l3)
+           | _ => ([], l)
+           end
+  end.
+Definition parse_table (l : list tl_t) : option (ptable * list tl_t) :=
+  match l with
+  | (c, hdr) :: l1 =>
+      match table_name c with
+      | Some nm =>
+          let (fill, l2) := span_tag "f" l1 in
+          match l2 with
+          | ("r", row0) :: l3 =>
+              let (more, l4) := parse_more (length l3) l3 in
+              let (eb, l5) := span_tag "e" l4 in
+              match l5 with
+              | ("z", sp) :: l6 => Some ({| p_name := nm; p_hdr := hdr; p_fill := fill; p_row0 := row0; p_more := more; p_eb := eb; p_sep := sp |}, l6)
+              | _ => None
+              end
+          | _ => None
+          end
+      | None => None
+      end
+  | [] => None
+  end.
+Fixpoint parse_rest (fuel : nat) (l : list tl_t) : list (list str * ptable) * list tl_t :=
+  match fuel with
+  | O => ([], l)
+  | S f => let (inter, l1) := span_tag "i" l in
+           match parse_table l1 with
+           | Some (t, l2) => let (m, l3) := parse_rest f l2 in ((inter, t) :: m, l3)
+           | None => ([], l)
+           end
+  end.
+Definition parse_set (l : list tl_t) : option (pset * list tl_t) :=
+  let (lead, l1) := span_tag "l" l in
+  match l1 with
+  | ("t", tm) :: l2 =>
+      let (h1, l3) := span_tag "h" l2 in
+      match l3 with
+      | ("s", sp) :: l4 =>
+          let (bl, l5a) := span_tag "b" l4 in
+          let (xs, l5) := span_tag "y" l5a in
+          match parse_table l5 with
+          | Some (t0, l6) =>
+              let (rest, l7) := parse_rest (length l6) l6 in
+              let (tail, l8) := span_tag "x" l7 in
+              Some ({| ps_lead := lead; ps_time := tm; ps_h1 := h1; ps_sep := sp; ps_bl := bl; ps_x := xs; ps_first := t0; ps_rest := rest; ps_tail := tail |}, l8)
+          | None => None
+          end
+      | _ => None
+      end
+  | _ => None
+  end.
+Fixpoint parse_sets (fuel : nat) (l : list tl_t) : option (list pset) :=
+  match l with
+  | [] => Some []
+  | _ => match fuel with
+         | O => None
+         | S f => match parse_set l with
+                  | Some (x, l') => match parse_sets f l' with Some r => Some (x :: r) | None => None end
+                  | None => None
+                  end
+         end
+  end.
+(** which hypothesis fails (diagnostics only) *)
+Fixpoint find_false {A} (p : A -> bool) (l : list A) (i : nat) : option nat :=
+  match l with [] => None | x :: r => if p x then find_false p r (S i) else Some i end.
+Definition why_set (x : pset) : str :=
+  if negb (lead_okb (ps_lead x)) then s2l "lead"
+  else if negb (match split_ws (ps_time x) with _ :: _ :: _ => true | _ => false end) then s2l "time-line"
+  else if negb (forallb (fun l => negb (starts_at 1 kw_at l)) (ps_h1 x)) then s2l "h1"
+  else if negb (starts_at 1 kw_at (ps_sep x)) then s2l "sep"
+  else if negb (forallb is_blank (ps_bl x)) then s2l "blanks"
+  else if is_blank (p_hdr (ps_first x)) then s2l "blank-header"
+  else if negb (extra_okb (ps_x x) (p_hdr (ps_first x))) then s2l "short-line"
+  else if negb (skip_okb (ps_first x)) then s2l "first-table-separator"
+  else if negb (forallb (fun l => negb (is_oda l)) (rest_lines (ps_rest x) (ps_tail x))) then s2l "output-data-after-line-inside"
+  else if negb (forallb (fun l => negb (is_kcyc l)) (ps_lead x)) then s2l "kcyc-line-in-lead"
+  else if negb (forallb (fun l => negb (is_kcyc l)) (ps_tail x)) then s2l "kcyc-line-in-tail"
+  else s2l "?".
+Definition why_out (sm : sim) (sets : list pset) : str :=
+  match sets with
+  | [] => s2l "no-result-set"
+  | x0 :: more =>
+      match find_false set_okb sets 0 with
+      | Some k => s2l "set_ok " ++ show_nat k ++ s2l " " ++ why_set (nth k sets x0)
+      | None =>
+          match (if sim_eqb sm T2MP then Ok (read_title_MP (file_from sets)) else read_title_T2 (file_from sets)) with
+          | Raise _ => s2l "title"
+          | Ok title =>
+              match find_false (fun t => match tshape_check sm title t with Some _ => true | None => false end) (set_tables x0) 0 with
+              | Some j => s2l "table_shape " ++ show_nat j
+              | None =>
+                  match shapes sm title (set_tables x0) with
+                  | None => s2l "shapes"
+                  | Some Ts =>
+                      match find_false struct_okb Ts 0 with
+                      | Some j => s2l "struct " ++ show_nat j
+                      | None =>
+                          let names := map p_name (set_tables x0) in
+                          if negb (nodupb str_eqb names) then s2l "names-repeat"
+                          else if negb (str_eqb (p_name (ps_first x0)) n_element) then s2l "first-not-element"
+                          else match find_false (like_okb names) sets 0 with
+                               | Some k => s2l "set_like " ++ show_nat k
+                               | None => match find_false (fun x => forall2b tlaterb Ts (set_tables x)) more 1 with
+                                         | Some k => s2l "later_tables " ++ show_nat k
+                                         | None => s2l "?"
+                                         end
+                               end
+                      end
+                  end
+              end
+          end
+      end
+  end.
+Fixpoint lines_eqb (a b : list str) : bool :=
+  match a, b with [], [] => true | x :: a', y :: b' => str_eqb x y && lines_eqb a' b' | _, _ => false end.
+Definition run_fchk (sm tags : str) (lines : list str) : str :=
+  let file := map unhex_fast lines in
+  match parse_sets (S (length file)) (combine tags file) with
+  | None => s2l "OUT parse"
+  | Some sets =>
+      if negb (lines_eqb (file_from sets) file) then s2l "OUT render-differs"
+      else match file_check (parse_sim sm) sets with
+           | Some (title, Ts) => flatten ([s2l "INCLASS sets="; show_nat (length sets); s2l " tables="; show_nat (length Ts); s2l " rows="]
+                                          ++ show_nats (map (fun T => length (lt_rows T)) Ts))
+           | None => s2l "OUT " ++ why_out (parse_sim sm) sets
+           end
+  end.
+
 Definition run_case (line : str) : str :=
-  match (match line with "f" :: "i" :: "l" :: "e" :: _ => split_fast tab line | _ => fields line end) with
+  match (match line with "f" :: _ => split_fast tab line | _ => fields line end) with
   | k :: h :: args =>
       let s := unhex h in
       if str_eqb k (s2l "file") then
         match args with
         | sk :: idx :: lines => run_file h sk idx lines
+        | _ => s2l "BADCASE" end
+      else if str_eqb k (s2l "demo") then flatten (sep_list comma (map hex demo_file))
+      else if str_eqb k (s2l "fchk") then
+        match args with
+        | tags :: lines => run_fchk h tags lines
         | _ => s2l "BADCASE" end
       else if str_eqb k (s2l "sov") then
         match args with
